@@ -69,19 +69,20 @@ var c06Commands = []struct {
 }
 
 type c06Case struct {
-	S       vScenario `json:"s"`
-	Layout  string    `json:"layout"` // date layout of the log and of every date argument
-	Today   int       `json:"today"`
-	GB      c06Bound  `json:"gb"` // global -b / -e
-	GE      c06Bound  `json:"ge"`
-	SB      c06Bound  `json:"sb"` // sub-command -b / -e (only for commands that define them)
-	SE      c06Bound  `json:"se"`
-	Cmd     int       `json:"cmd"`
-	TZ      string    `json:"tz"`
-	Summary *c06Bound `json:"summary,omitempty"` // summary DATE instead of Cmd
-	Bin     bool      `json:"bin"`
-	LongOpt bool      `json:"longopt"`
-	FmtVia  string    `json:"fmtvia,omitempty"` // how the date format is given: "" flag, "env", "config"
+	S         vScenario `json:"s"`
+	Layout    string    `json:"layout"` // date layout of the log and of every date argument
+	Today     int       `json:"today"`
+	GB        c06Bound  `json:"gb"` // global -b / -e
+	GE        c06Bound  `json:"ge"`
+	SB        c06Bound  `json:"sb"` // sub-command -b / -e (only for commands that define them)
+	SE        c06Bound  `json:"se"`
+	Cmd       int       `json:"cmd"`
+	TZ        string    `json:"tz"`
+	Summary   *c06Bound `json:"summary,omitempty"`   // summary DATE instead of Cmd
+	SumGlobal int       `json:"sumglobal,omitempty"` // summary under a clock layout: 1 a global -b, 2 a global -e, 3 both, each inside the day asked for
+	Bin       bool      `json:"bin"`
+	LongOpt   bool      `json:"longopt"`
+	FmtVia    string    `json:"fmtvia,omitempty"` // how the date format is given: "" flag, "env", "config"
 	// Clock: the layout has a clock component ("2006-01-02 15:04"): record i is dated S.Days[i] at minute Mins[i], explicit
 	// bounds carry the minutes BMins (global begin, global end, sub-command begin, sub-command end); begin <= t <= end on instants
 	Clock bool   `json:"clock,omitempty"`
@@ -253,6 +254,17 @@ func checkC06(c c06Case, ctx *vCtx) *vFailure {
 		}
 		ctx.Label("summary:" + c.Summary.Kind)
 		base := append([]string{}, fmtArgs...)
+		if c.Clock && !c06Zoned(c) && c.SumGlobal != 0 {
+			// global period flags beside summary: the command shows the day it is asked for, whatever the flags say
+			// (bounds inside that very day, so that a kept bound would cut it)
+			if c.SumGlobal&1 != 0 {
+				base = append(base, "-b", c06Inst(day, c.BMins[1], c.Layout))
+			}
+			if c.SumGlobal&2 != 0 {
+				base = append(base, "-e", c06Inst(day, c.BMins[2], c.Layout))
+			}
+			ctx.Label("summary-with-global-period")
+		}
 		inv := vInvocation{Args: append(append(base, "-d", bookPath, "-l", fullPath), "--no-color", "summary", arg), TZ: c.TZ}
 		got := run(inv)
 		redPath, nsel, _ := reduced(selDay)
@@ -554,6 +566,9 @@ func genC06(t *rapid.T) c06Case {
 			b = c06Bound{Kind: "today"}
 		}
 		c.Summary = &b
+		if c.Clock {
+			c.SumGlobal = []int{0, 0, 1, 2, 3}[rapid.IntRange(0, 4).Draw(t, "sumglobal")]
+		}
 		if c.Clock && len(c.S.Days) > 0 && len(clockEdges) > 3 && rapid.Bool().Draw(t, "sumedge") {
 			// a record in the very last (or first) instants of the day asked for
 			if day, ok := b.resolve(today); ok {
